@@ -1,5 +1,6 @@
 import Bgpfu.Lemmas.Readers
 import Bgpfu.Lemmas.Hello
+import Bgpfu.Lemmas.Rename
 /-!
 # C13 — parsing is invariant under XML-equivalent serialisations of a message
 
@@ -11,9 +12,14 @@ What is decided here, on the event level (the level the readers work at):
 * `<x/>` versus `<x></x>` — **not invariant** for the positive indications the readers match as
   `Event::Empty` only (`…_cex`, recorded as known findings);
 * a comment *inside* a leaf's text — **not invariant** (the leaf is read as the raw source span).
-Namespace-prefix choice, inter-element whitespace, attribute order and quoting are rewrites the
-tokenizer absorbs: they are invisible in the event list, so they are covered by the metamorphic
-correspondence run (`meta` op) only — that part is testing.
+* namespace-prefix choice (prefix vs default namespace, another prefix for the same namespace):
+  in the event list it is a renaming of the raw qualified names of elements — **invariant** for
+  every reader (replies, hello, the agent's candidate and installed-policies readers), every event
+  list and every injective renaming (last section; lemmas in `Lemmas/Rename.lean`). That quick-xml
+  maps a prefix rewrite of the text to exactly such a renaming is tested (`meta` op), not proved.
+Inter-element whitespace, attribute order and quoting are rewrites the tokenizer absorbs: they are
+invisible in the event list, so they are covered by the metamorphic correspondence run (`meta` op)
+only — that part is testing.
 -/
 namespace Xml
 
@@ -235,6 +241,130 @@ theorem empty_form_root_cex :
 /-- **Known finding**: a comment inside a leaf's text changes the raw span the leaf is parsed from. -/
 theorem comment_in_text_cex :
     parseSessionId (RCfg.fixed.tok "4711") = some 4711 ∧ parseSessionId (RCfg.fixed.tok "4711<!-- c -->") = none := by
+  decide
+
+/-! ### namespace-prefix choice: renaming of raw qualified names
+
+Writing an element with another prefix for the same namespace URI (or with the default namespace
+instead of a prefix) changes, in the event list, exactly the raw qualified names: `Tag.raw` of
+`Start`/`Empty` events and the name of `End` events; the namespace resolution result, the local
+name, the attributes and the source span stay. `renameEvs f` (Lemmas/Rename.lean) is that rewrite
+for an arbitrary renaming `f`. Two different raw names of the original document must stay
+different (`f` injective) — a prefix rewrite `p:local ↦ q:local` is.
+
+Every reader is invariant, for **every event list** (not only documents of a grammar), every
+configuration (pinned and repaired code) and every oracle. What stays tested only: that
+quick-xml's namespace resolution maps a prefix rewrite of the source text to exactly such a
+renaming of the event list. -/
+
+/-- **The prefix chosen for element names makes no difference to a reply**: both parse phases,
+the message-id cross-check and `into_result` give the same outcome — for every reply type, every
+event list and every injective renaming of raw element names. -/
+theorem reply_rename_invariant (f : String → String) (hf : ∀ a b, f a = f b → a = b)
+    (c : RCfg) (k : ReplyKind) (evs : List Ev) :
+    readMessage c k (renameEvs f evs) = readMessage c k evs :=
+  readMessage_rename hf c k evs
+
+/-- … nor to session establishment from the server's `<hello>` (for every URI oracle). -/
+theorem hello_rename_invariant (f : String → String) (hf : ∀ a b, f a = f b → a = b)
+    (c : RCfg) (adv : Bool) (o : UriOracle) (evs : List Ev) :
+    establish c adv o (renameEvs f evs) = establish c adv o evs :=
+  establish_rename hf c adv o evs
+
+/-- … nor to the agent's reader of candidate policies (`agent::verif::read_candidates` on a whole
+reply document), for every rpsl-parser and unescape oracle. -/
+theorem candidates_rename_invariant (f : String → String) (hf : ∀ a b, f a = f b → a = b)
+    (c : FCfg) (parseExpr unescape : String → Option String) (evs : List Ev) :
+    readCandidatesDoc c parseExpr unescape (renameEvs f evs) = readCandidatesDoc c parseExpr unescape evs :=
+  readCandidatesDoc_rename hf c parseExpr unescape evs
+
+/-- the same for `Policies<Candidate>::read_xml` entered right after `<data>` (the entry point the
+C16 theorems are stated on); the name of the `<data>` element is renamed too -/
+theorem candidates_data_rename_invariant (f : String → String) (hf : ∀ a b, f a = f b → a = b)
+    (c : FCfg) (parseExpr unescape : String → Option String) (dataRaw : String) (evs : List Ev) :
+    readCandidates c parseExpr unescape (f dataRaw) (renameEvs f evs) = readCandidates c parseExpr unescape dataRaw evs :=
+  readCandidates_rename hf c parseExpr unescape dataRaw evs
+
+/-- … nor to the agent's reader of installed policies (`agent::verif::read_installed`), for every
+unescape / prefix / prefix-length oracle. -/
+theorem installed_rename_invariant (f : String → String) (hf : ∀ a b, f a = f b → a = b)
+    (o : IOracle) (evs : List Ev) :
+    readInstalledDoc o (renameEvs f evs) = readInstalledDoc o evs :=
+  readInstalledDoc_rename hf o evs
+
+/-- the same for `Policies<Installed>::read_xml` entered right after `<data>` -/
+theorem installed_data_rename_invariant (f : String → String) (hf : ∀ a b, f a = f b → a = b)
+    (o : IOracle) (dataRaw : String) (evs : List Ev) :
+    readInstalledEv o (f dataRaw) (renameEvs f evs) = readInstalledEv o dataRaw evs :=
+  readInstalledEv_rename hf o dataRaw evs
+
+/-- Injectivity cannot be dropped for arbitrary event lists: a renaming that identifies two raw
+names can make a stray end tag match (such a list is not the tokenisation of a well-formed
+document: quick-xml checks end names). -/
+theorem rename_noninjective_cex :
+    readMessage .fixed .bare [.start (replyTag "rpc-reply" "1" []), .end "x", .eof] = .err .unexpected ∧
+    readMessage .fixed .bare (renameEvs (fun _ => "x") [.start (replyTag "rpc-reply" "1" []), .end "x", .eof]) = .ok := by
+  decide
+
+/-- the renaming `local ↦ nc:local` (writing the base namespace with the prefix `nc` instead of as
+the default namespace) -/
+def ncPrefix (s : String) : String := "nc:" ++ s
+
+theorem ncPrefix_injective : ∀ a b, ncPrefix a = ncPrefix b → a = b := by
+  intro a b h
+  simpa [ncPrefix] using h
+
+/-- what `renameEvs ncPrefix` produces: the twin document with `nc:rpc-reply`, `nc:ok` -/
+example :
+    renameEvs ncPrefix (replyDoc "rpc-reply" "1" [] [.ok])
+      = [.start (replyTag "nc:rpc-reply" "1" []), .empty { okTag with raw := "nc:ok" }, .end "nc:rpc-reply", .eof] := by
+  decide
+
+/-- non-vacuity: `<nc:rpc-reply message-id="1"><nc:ok/></nc:rpc-reply>` and its unprefixed twin both
+read to `ok` -/
+example :
+    readMessage .fixed .empty
+      [.start (replyTag "nc:rpc-reply" "1" []), .empty { okTag with raw := "nc:ok" }, .end "nc:rpc-reply", .eof] = .ok ∧
+    readMessage .fixed .empty (replyDoc "rpc-reply" "1" [] [.ok]) = .ok := by
+  decide
+
+/-- non-vacuity through the theorem: a `<data>` reply and an `<rpc-error>` reply, prefixed by
+`renameEvs ncPrefix`, read to the same non-error values as the unprefixed documents -/
+example :
+    readMessage .fixed .data (renameEvs ncPrefix (replyDoc "rpc-reply" "7" [] [.data "<a/>" [.empty (baseTag "a" none)]]))
+      = .data "<a/>" := by
+  rw [reply_rename_invariant ncPrefix ncPrefix_injective]; decide
+
+example :
+    readMessage .fixed .data (renameEvs ncPrefix (replyDoc "rpc-reply" "7" [] [.data "<a/>" [.empty (baseTag "a" none)]]))
+      = .data "<a/>" := by
+  decide
+
+/-- non-vacuity, hello: `<nc:hello><nc:capabilities><nc:capability>…` establishes the same session -/
+example :
+    (establish .fixed false (fun _ => some { scheme := "urn", authority := none, path := "ietf:params:netconf:base:1.0", query := none, fragment := none })
+      (renameEvs ncPrefix (helloDoc "hello" [] [.caps "capabilities" [.cap "urn:ietf:params:netconf:base:1.0" []], .sid "4711" []]))).toOption
+      = some { sid := 4711, version := .v10, serverCaps := [.base10] } := by
+  decide
+
+/-- a reply carrying one annotated default-reject policy, all element names unprefixed -/
+def exCandidateReply : List Ev :=
+  let x (n : String) (attrs : List AttrItem) (sp : Option String) : Tag :=
+    { ns := .bound XNM, lname := n, raw := n, attrs := attrs, span := sp }
+  [.start (replyTag "rpc-reply" "1" []), .start (baseTag "data" none),
+   .start (x "configuration" [] none), .start (x "policy-options" [] none),
+   .start (x "policy-statement"
+      [.ok { key := "jcmd:comment", ns := .bound JCMD, lname := "comment", value := some "/* bgpfu-fltr:AS-FOO */" }] none),
+   .start (x "name" [] (some "fltr-foo")), .text "fltr-foo", .end "name",
+   .start (x "then" [] none), .empty (x "reject" [] none), .end "then",
+   .end "policy-statement", .end "policy-options", .end "configuration", .end "data", .end "rpc-reply", .eof]
+
+/-- non-vacuity, agent: the prefixed twin (`nc:data`, `nc:configuration`, `nc:policy-statement`, …)
+yields the same candidate -/
+example :
+    (readCandidatesDoc .fixed some some (renameEvs ncPrefix exCandidateReply)).toOption
+      = some [("fltr-foo", .parsed "AS-FOO")] ∧
+    (readCandidatesDoc .fixed some some exCandidateReply).toOption = some [("fltr-foo", .parsed "AS-FOO")] := by
   decide
 
 end Xml
